@@ -367,6 +367,7 @@ theorem runDelete_calls (mask : Nat → DelOutcome) (st : CompState) (a : Act) :
   cases a with
   | emit k v r => exact .inl rfl
   | panic => exact .inl rfl
+  | expire _ _ _ _ => exact .inl rfl
   | del ik raw =>
     simp only [runDelete]
     split
@@ -402,6 +403,7 @@ theorem runDelete_noCall {m1 m2 : Nat → DelOutcome} (st : CompState) (a : Act)
   cases a with
   | emit k v r => rfl
   | panic => rfl
+  | expire _ _ _ _ => rfl
   | del ik raw =>
     simp only [runDelete] at h ⊢
     split
@@ -451,6 +453,7 @@ theorem runDelete_cut_store {mask : Nat → DelOutcome} {c : Nat} (st : CompStat
   cases a with
   | emit k v r => rfl
   | panic => rfl
+  | expire _ _ _ _ => rfl
   | del ik raw => simp only [runDelete, hf]; split <;> rfl
   | delcur ik v raw => simp only [runDelete, hf]; split <;> rfl
 
@@ -516,6 +519,7 @@ theorem runDelete_sim (mask : Nat → DelOutcome) (st1 st2 : CompState) (a : Act
   cases a with
   | emit k v r => exact ⟨rfl, rfl, .inl ⟨rfl, rfl⟩⟩
   | panic => exact ⟨rfl, rfl, .inl ⟨rfl, rfl⟩⟩
+  | expire _ _ _ _ => exact ⟨rfl, rfl, .inl ⟨rfl, rfl⟩⟩
   | del ik raw =>
     simp only [runDelete]
     split
@@ -886,6 +890,7 @@ theorem restored_compDel (hidx : IdxWF recs0) {R : Nat} {mask : Nat → DelOutco
           cases a with
           | emit _ _ _ => cases htarget
           | panic => cases htarget
+          | expire _ _ _ _ => cases htarget
           | del ik' raw =>
             simp only [actTarget, Option.some.injEq] at htarget
             subst htarget
@@ -936,6 +941,7 @@ theorem logicalIdx_runDelete {R : Nat} (mask : Nat → DelOutcome) {st : CompSta
   cases a with
   | emit _ _ _ => rfl
   | panic => rfl
+  | expire _ _ _ _ => rfl
   | del ik raw =>
     obtain ⟨k', n, e1, h0, _, hn⟩ := hshape
     apply logicalIdx_congr
@@ -1101,6 +1107,7 @@ theorem runDelete_ctrl (mask : Nat → DelOutcome) (st1 st2 : CompState) (a : Ac
   cases a with
   | emit k v r => exact ⟨rfl, rfl, rfl⟩
   | panic => exact ⟨rfl, rfl, rfl⟩
+  | expire _ _ _ _ => exact ⟨rfl, rfl, rfl⟩
   | del ik raw =>
     simp only [runDelete]
     split
